@@ -231,9 +231,9 @@ def harness_dir():
     return d
 
 
-def ensure_harness(cfg, timeout=2400):
+def ensure_harness(cfg, timeout=2400, release=False):
     """Rebuild the harness (and borsh, from /repo's working tree) for one feature configuration.
-    Returns (path or None, build log)."""
+    Returns (path or None, build log).  release=True: the release profile (no debug assertions, no overflow checks)."""
     ensure_catalogue()
     hd = harness_dir()
     lock = hd + '/Cargo.lock'
@@ -241,10 +241,12 @@ def ensure_harness(cfg, timeout=2400):
         sh(['cp', REPO + '/Cargo.lock', lock])
     feats, _ = CONFIGS[cfg]
     cmd = ['timeout', str(timeout), 'cargo', 'build', '--offline', '--features', feats, '--target-dir', '%s/target-%s%s' % (CACHE, cfg, TAG)]
+    if release:
+        cmd.insert(4, '--release')
     rc, out = sh(cmd, cwd=hd, timeout=timeout + 60)
     if rc != 0:
         return None, out
-    return harness_path(cfg), out
+    return harness_path(cfg, release), out
 
 
 MEM_LIMIT = 6 * 1024 ** 3      # address-space cap per child: a runaway case must not take the sandbox down
